@@ -151,10 +151,18 @@ pub struct TraceSponge<SF: PrimeField> {
     pub trace: Rc<RefCell<Vec<SpongeEv>>>,
     /// fault knob (sensitivity / C11 "sponge diverged"): nothing here by default
     pub squeezed_fe: Rc<RefCell<Vec<Vec<u8>>>>,
+    /// field elements squeezed from copies the *library* made of this sponge with `Clone` (the
+    /// harness snapshots with `fork`): public data an adversary can compute as well. Shared between
+    /// a sponge and its clones, recording only - never compared between parties.
+    pub clone_sq: Rc<RefCell<Vec<Vec<u8>>>>,
+    pub is_clone: bool,
 }
 impl<SF: PrimeField> Clone for TraceSponge<SF> {
     fn clone(&self) -> Self {
-        self.fork()
+        let mut c = self.fork();
+        c.clone_sq = self.clone_sq.clone();
+        c.is_clone = true;
+        c
     }
 }
 impl<SF: PrimeField> TraceSponge<SF> {
@@ -168,6 +176,8 @@ impl<SF: PrimeField> TraceSponge<SF> {
             inner: self.inner.clone(),
             trace: Rc::new(RefCell::new(self.trace.borrow().clone())),
             squeezed_fe: Rc::new(RefCell::new(self.squeezed_fe.borrow().clone())),
+            clone_sq: Default::default(),
+            is_clone: false,
         }
     }
     pub fn state_bytes(&self) -> Vec<u8> {
@@ -204,7 +214,7 @@ impl<SF: PrimeField> TraceSponge<SF> {
 impl<SF: PrimeField> CryptographicSponge for TraceSponge<SF> {
     type Config = PoseidonConfig<SF>;
     fn new(p: &Self::Config) -> Self {
-        TraceSponge { inner: PoseidonSponge::new(p), trace: Default::default(), squeezed_fe: Default::default() }
+        TraceSponge { inner: PoseidonSponge::new(p), trace: Default::default(), squeezed_fe: Default::default(), clone_sq: Default::default(), is_clone: false }
     }
     fn absorb(&mut self, input: &impl Absorb) {
         let b = input.to_sponge_bytes_as_vec();
@@ -228,6 +238,9 @@ impl<SF: PrimeField> CryptographicSponge for TraceSponge<SF> {
             ark_serialize::CanonicalSerialize::serialize_compressed(x, &mut b).unwrap();
         }
         self.squeezed_fe.borrow_mut().push(b.clone());
+        if self.is_clone {
+            self.clone_sq.borrow_mut().push(b.clone());
+        }
         self.rec("sq_fe_sized", sizes.len(), &b);
         out
     }
@@ -238,6 +251,9 @@ impl<SF: PrimeField> CryptographicSponge for TraceSponge<SF> {
             ark_serialize::CanonicalSerialize::serialize_compressed(x, &mut b).unwrap();
         }
         self.squeezed_fe.borrow_mut().push(b.clone());
+        if self.is_clone {
+            self.clone_sq.borrow_mut().push(b.clone());
+        }
         self.rec("sq_fe", n, &b);
         out
     }
